@@ -86,4 +86,16 @@ PROPS = {
                    "cells": [r"convd\.angle_cw\.range\|signed_zero_coeffs", r"convd\.euler\.roundtrip\|proper", r"SE_2_3d<Galilei\.Ad", r"liftd\.project_se2"]},
         "assumptions": ["oracle layouts / embeddings written from the documentation", "verdict covers only the executions sampled"],
     },
+    "C20": {
+        "units": [{"name": "c20", "src": "harness/c20.cpp", "flavor": "asan", "shards": {"quick": 8, "thorough": 16}}],
+        "rule": "bases: degrees K = 0..10 x ~55 evaluation points per batch (end points, 1e-9 inside, random); LGR K = 1..16; "
+                "integrate_absolute_polynomial: random (A,B,C,t0<=t1) with coefficients 0 / 1e-12..1e-6 / 1e-6..1e3 and a root forced inside "
+                "the interval in half of the cases; binary_interval_search: EXHAUSTIVE over all sorted ranges of length 0..8 over a 5-letter "
+                "alphabet x 22 queries for double/int/opaque element types, plus random long/clustered ranges; distinct = distinct inputs",
+        "floors": {"min_evaluations": {"quick": 100000, "thorough": 1000000},
+                   "cells": [r"binary_interval_search\.opaque\|case4_interior", r"lgr\.exactness\|K=16", r"laguerre\.recurrence\|K=10", r"integrate_absolute_polynomial\|"],
+                   "counters": ["C20.search.exhaustive_ranges"]},
+        "assumptions": ["definitions re-implemented in long double (binomials, Cox-de Boor, three-term recurrences, exact antiderivatives with stable roots)",
+                        "verdict covers only the executions sampled; the search sweep over length <= 8 is exhaustive"],
+    },
 }
